@@ -1,3 +1,4 @@
+import Props.SchedTie
 import TaskModel.Sched.MonC07
 import TaskModel.Sched.CallLemmas
 import TaskModel.Sched.ProgressLemmas
